@@ -17,6 +17,7 @@ import AdaptixProofs.Lemmas.CoerceSpecSound
 import AdaptixProofs.Lemmas.CoerceBuiltin
 import AdaptixProofs.Lemmas.CoerceWitness
 import AdaptixProofs.Lemmas.CoercePolicy
+import AdaptixProofs.Lemmas.CoerceHierarchy
 
 namespace Adaptix.Conv.C14
 
@@ -311,6 +312,106 @@ theorem elementwise_witness :
 
 /-! ### Non-vacuity: concrete evaluations of the model (tests, not theorems) -/
 
+/-! ### Models in a generic class hierarchy: which type a field has
+
+  `Cfg.shape` is a parameter of every theorem above ("field types are already resolved").
+  `AdaptixModel/Conv/Hierarchy.lean` computes it for a chain of generic dataclasses
+  (`declared` / `hierShape`); the theorems below say that this is the declared type in the
+  sense of Python's typing rules (a relation, `Declares`), that a re-declaration in a child
+  wins over what the subscribed parent says, and what that means for the converter. -/
+
+/-- **`declared` computes declared types**: every field it lists has the type the nearest
+    class annotating the name gives it, with that class' parameters replaced along the chain
+    of base subscriptions (the relation `Declares`); for every hierarchy, binding and fuel. -/
+theorem hier_declared_sound (H : Hier) (fuel i : Nat) (σ : Binding) (f : Field)
+    (hf : f ∈ declared H fuel i σ) : Declares H i σ f.name f.ty := by
+  induction fuel generalizing i σ with
+  | zero => simp [declared] at hf
+  | succ fuel ih =>
+    rcases mem_declared_succ hf with h | ⟨b, hb, hin, hno⟩
+    · obtain ⟨e, he, hn, ht, _⟩ := mem_ownFields h
+      rw [hn, ht]
+      exact .own i σ e he
+    · exact .inherited i σ b f.name f.ty hb hno (ih b.cls _ hin)
+
+/-- **A re-declaration wins over the inherited substitution**: when the body of class `i`
+    annotates the name `e.name`, the declared type of that field of `H[i]` under `σ` is the
+    class' own annotation with the class' *own* parameters replaced — whatever base the class
+    has, however that base is subscribed and whatever it declares under the same name. -/
+theorem hier_override_wins (H : Hier) (fuel i : Nat) (σ : Binding) (e : HField)
+    (hnodup : ((H.cls i).own.map (·.name)).Nodup) (he : e ∈ (H.cls i).own)
+    (f : Field) (hf : f ∈ declared H (fuel + 1) i σ) (hname : f.name = e.name) :
+    f.ty = e.ann.inst σ ∧ f.required = e.required := by
+  rcases mem_declared_succ hf with h | ⟨b, _, _, hno⟩
+  · obtain ⟨e', he', hn, ht, hr⟩ := mem_ownFields h
+    have : e' = e := eq_of_nodup_name hnodup he' he (hn.symm.trans hname)
+    subst this
+    exact ⟨ht, hr⟩
+  · exact absurd hname.symm (hno e he)
+
+/-- a name the class body does not mention is declared exactly as the base — subscribed as
+    written in the class statement — declares it -/
+theorem hier_inherited_from_base (H : Hier) (fuel i : Nat) (σ : Binding) (b : HBase)
+    (hb : (H.cls i).base = some b) (f : Field) (hf : f ∈ declared H (fuel + 1) i σ)
+    (hno : ∀ e ∈ (H.cls i).own, e.name ≠ f.name) :
+    f ∈ declared H fuel b.cls (bindBase H σ b) := by
+  rcases mem_declared_succ hf with h | ⟨b', hb', hin, _⟩
+  · obtain ⟨e, he, hn, _, _⟩ := mem_ownFields h
+    exact absurd hn.symm (hno e he)
+  · rw [hb] at hb'
+    cases hb'
+    exact hin
+
+/-- **The converter is decided by the re-declaring class' annotation** (source side): if the
+    source model is class `i` of a hierarchy (its shape being the declared one), the body of
+    class `i` re-declares the field `e.name`, and a converter into a model with a field `d`
+    of that name exists, then the coercer search was answered for
+    `e.ann[σ] → d.ty` — the child's own annotation under the use-site arguments, not the type
+    the subscribed parent has for the field.  Contrapositive: if that pair is refused, so is
+    the model pair (`Child[str] → Dst(value: int)` with `Child(Parent[int], Generic[T]): value: T`). -/
+theorem hier_redeclared_field_decides (cfg : Cfg) (hrecipe : cfg.recipe = builtinRecipe)
+    (H : Hier) (fuel i : Nat) (σ : Binding) (e : HField)
+    (hnodup : ((H.cls i).own.map (·.name)).Nodup) (he : e ∈ (H.cls i).own)
+    (sc dc : Nat) (sa da : List Ty) (dfs : List Field)
+    (hss : cfg.shape sc sa = some (declared H (fuel + 1) i σ)) (hds : cfg.shape dc da = some dfs)
+    (d : Field) (hd : d ∈ dfs) (hdn : d.name = e.name) (n : Nat)
+    (hconv : ∃ c, provide cfg (n + 1) (.cls sc sa) (.cls dc da) = .ok c) :
+    ∃ c, provide cfg n (e.ann.inst σ) d.ty = .ok c := by
+  have hacc := (model_converter_iff cfg hrecipe sc dc sa da _ dfs hss hds n).mp hconv d hd
+  cases hacc with
+  | linked hfind hok =>
+    rename_i s c
+    have hs : s ∈ declared H (fuel + 1) i σ := List.mem_of_find?_eq_some hfind
+    have hsn : s.name = d.name := by simpa using List.find?_some hfind
+    have := (hier_override_wins H fuel i σ e hnodup he s hs (hsn.trans hdn)).1
+    exact ⟨c, this ▸ hok⟩
+  | skipped hnone _ _ =>
+    obtain ⟨f, hf, hfn⟩ := declared_has_own (H := H) (fuel := fuel) (σ := σ) he
+    exact absurd (hfn.trans hdn.symm) (hnone f hf)
+
+/-- destination side: the field of the destination model `H[i][σ]` that class `i` re-declares
+    is asked for with the child's own annotation as destination type -/
+theorem hier_redeclared_dst_field_decides (cfg : Cfg) (hrecipe : cfg.recipe = builtinRecipe)
+    (H : Hier) (fuel i : Nat) (σ : Binding) (e : HField)
+    (hnodup : ((H.cls i).own.map (·.name)).Nodup) (he : e ∈ (H.cls i).own)
+    (sc dc : Nat) (sa da : List Ty) (sfs : List Field)
+    (hss : cfg.shape sc sa = some sfs) (hds : cfg.shape dc da = some (declared H (fuel + 1) i σ))
+    (s : Field) (hs : findSource e.name sfs = some s) (hreq : e.required = true) (n : Nat)
+    (hconv : ∃ c, provide cfg (n + 1) (.cls sc sa) (.cls dc da) = .ok c) :
+    ∃ c, provide cfg n s.ty (e.ann.inst σ) = .ok c := by
+  obtain ⟨d, hd, hdn⟩ := declared_has_own (H := H) (fuel := fuel) (σ := σ) he
+  have hacc := (model_converter_iff cfg hrecipe sc dc sa da sfs _ hss hds n).mp hconv d hd
+  have hty := hier_override_wins H fuel i σ e hnodup he d hd hdn
+  cases hacc with
+  | linked hfind hok =>
+    rename_i s' c
+    rw [hdn, hs] at hfind
+    cases hfind
+    exact ⟨c, hty.1 ▸ hok⟩
+  | skipped _ hopt _ =>
+    rw [hty.2, hreq] at hopt
+    cases hopt
+
 section Examples
 
 /-- classes: 8 = object, 9 = int, 10 = bool, 11 = str, 20/21 = models `S{x: ?}` / `D{x: ?, y: int = …}` -/
@@ -396,6 +497,31 @@ example (n : Nat) (c : Coercer) :
   unlinked_refused_per_field _ rfl [⟨.under 23 fY, true⟩] rfl 20 23 [] [] _ _ rfl rfl ⟨2, tStr, false⟩ (by simp)
     (by intro s hs; simp only [List.mem_cons, List.not_mem_nil, or_false] at hs; subst hs; decide)
     (.inr (by intro q hq; simp only [List.mem_cons, List.not_mem_nil, or_false] at hq; subst hq; decide)) n c
+
+-- generic hierarchy: `class P(Generic[T]): a: T; b: T`, `class C(P[int], Generic[T]): a: T` (0 = T; fields 0 = a, 1 = b),
+-- `class R(P[int]): a: list` (non-generic child, bare generic re-declaration)
+private def exHier : Hier :=
+  [ { params := [0], base := none, own := [⟨0, .var 0, true⟩, ⟨1, .var 0, true⟩] },
+    { params := [0], base := some ⟨0, some [.const tInt]⟩, own := [⟨0, .var 0, true⟩] },
+    { params := [], base := some ⟨0, some [.const tInt]⟩, own := [⟨0, .const (.iter .list .any), true⟩] },
+    { params := [0], base := some ⟨0, none⟩, own := [⟨0, .iter .list (.var 0), true⟩] } ]
+-- `C[str]`: a: str (the child's annotation under the use-site argument), b: int (through `P[int]`)
+example : fieldsBeq (hierShape exHier 1 [tStr]) [⟨0, tStr, true⟩, ⟨1, tInt, true⟩] = true := by decide
+-- `P[str]`: both fields str;  `R`: a: list[Any], b: int;  a bare parent gives Any
+example : fieldsBeq (hierShape exHier 0 [tStr]) [⟨0, tStr, true⟩, ⟨1, tStr, true⟩] = true := by decide
+example : fieldsBeq (hierShape exHier 2 []) [⟨0, .iter .list .any, true⟩, ⟨1, tInt, true⟩] = true := by decide
+example : fieldsBeq (hierShape exHier 3 [tStr]) [⟨0, .iter .list tStr, true⟩, ⟨1, .any, true⟩] = true := by decide
+-- the conversion over declared shapes: `C[str] -> D(a: int)` is refused, `C[str] -> D(a: str)` and `C[int] -> D(a: int)` exist
+private def hierCfg (arg dx : Ty) : Cfg :=
+  { sub := exSub
+    shape := fun c a => if c == 30 then some (hierShape exHier 1 [arg])
+      else if c == 21 && a.isEmpty then some [⟨0, dx, true⟩] else none
+    dflt := fun _ _ => .atom 9 0
+    policy := .builtin
+    recipe := builtinRecipe }
+example : (provide (hierCfg tStr tInt) 8 (.cls 30 [tStr]) (.cls 21 [])).isNotFound = true := by decide
+example : (provide (hierCfg tStr tStr) 8 (.cls 30 [tStr]) (.cls 21 [])).kind? = some .model := by decide
+example : (provide (hierCfg tInt tInt) 8 (.cls 30 [tInt]) (.cls 21 [])).kind? = some .model := by decide
 
 end Examples
 
